@@ -32,11 +32,11 @@ BOUNDS = {'quick': "400 seeded random programs over the drawable kinds (<= 3 ste
           'thorough': "3000 programs, <= 4 steps, <= 9 leaves, nesting <= 2"}
 OUTSIDE = ["rasterisation and typography (twin only)", "plain TwoQubitOperation / user-defined kinds without a draw factory", "IEEE rounding off the dyadic grid"]
 ASSUMPTIONS = ["renderer stub on symbolic paths (the components are constructed by the real factories and their transforms are read)", "memo caches start empty"]
-REQUIRED_REACH = ['C18.position.x', 'C18.position.row', 'C18.width', 'C18.components', 'C18.unchanged.operations', 'C18.unchanged.retained', 'C18.unchanged.schedule', 'C18.unchanged.acquisition', 'C18.unknown_channel']
+REQUIRED_REACH = ['C18.position.x', 'C18.position.row', 'C18.components.complete', 'C18.width', 'C18.components', 'C18.unchanged.operations', 'C18.unchanged.retained', 'C18.unchanged.schedule', 'C18.unchanged.acquisition', 'C18.unknown_channel']
 EXHAUSTIVE = {'quick': False, 'thorough': False}
 JOB_OPTS = {'quick': dict(max_paths=2500, max_seconds=600, twin_every=2), 'thorough': dict(max_paths=20000, max_seconds=2000, twin_every=4)}
 
-ALPHA = [['W', 0, 'ALL'], ['W', 3, 'MW'], ['G', 'Rx180', [0]], ['G', 'Ry90', [5]], ['G', 'Reset', [3]], ['G', 'CPhase', [0, 3]], ['G', 'CPhase', [5, 3]], ['M', 5, 'a'], ['M', 0, 'b'], ['B', [0, 3]],
+ALPHA = [['W', 0, 'ALL'], ['W', 3, 'MW'], ['G', 'Rx180', [0]], ['G', 'Ry90', [5]], ['G', 'Reset', [3]], ['G', 'CPhase', [0, 3]], ['G', 'CPhase', [5, 3]], ['G', 'CPhase', [5, 7]], ['M', 5, 'a'], ['M', 0, 'b'], ['B', [0, 3]],
          ['B', [0, 3, 5]], ['G', 'VirtualPark', [3]], ['V', 'VirtualVacant', 5, 'FL'], ['V', 'VirtualEmpty', 0, 'ALL'], ['T', 'VirtualTwoQubitVacant', [0, 5], 'FL'], ['G', 'Hadamard', [5]],
          ['G', 'Identity', [0]], ['G', 'Rx180ef', [3]], ['G', 'VirtualPhase', [5]], ['G', 'Rphi90', [0]]]
 
@@ -50,6 +50,17 @@ def jobs(tier, seed):
         prog = {'steps': [{'k': ['S', {'steps': [{'k': k, 'rel': None} for k in inner], 'rep': 2}], 'rel': None}]}
         for compact in (True, False):
             out.append({'prog': prog, 'order': None, 'labels': None, 'compact': compact, 'unroll': True})
+    # simultaneous two-qubit gates on disjoint pairs whose start times coincide at different relation depths (one long operation before
+    # one of them): the bulk factory groups two-qubit gates by start time
+    cz_a, cz_b = ['G', 'CPhase', [5, 7]], ['G', 'CPhase', [0, 3]]
+    for head in (['G', 'Reset', [3]], ['M', 0, 'b'], ['W', 0, 'ALL']):
+        for n_chain in (2, 3):
+            for tail_first in (False, True):
+                chain = [{'k': cz_a, 'rel': None} for _ in range(n_chain)]
+                steps_ = [{'k': head, 'rel': None}] + ([{'k': cz_b, 'rel': None}] + chain if tail_first else chain + [{'k': cz_b, 'rel': None}])
+                for compact in (True, False):
+                    out.append({'prog': {'steps': steps_}, 'order': None, 'labels': None, 'compact': compact, 'unroll': False})
+    n += len(out)
     while len(out) < n:
         p = gen.random_program(rng, ALPHA, steps, depth, types='FSE', p_sub=0.25, p_rel=0.3, reps=(1, 2), sub_rel=False)
         if not (1 <= gen.count_leaves(p) <= leaves):
@@ -109,6 +120,7 @@ class Capture:
             for comp in description.get_operation_draw_components():
                 rt = getattr(comp, 'rectilinear_transform', None)
                 rec['components'].append((type(comp).__name__, None if rt is None else rt.pivot.x))
+            rec['n_desc_ops'] = len(list(description.operations))
             rec['highlights'] = len(description.get_highlight_draw_components())
             for i in range(len(description.channel_indices)):
                 h = description.get_channel_header(index=i)
@@ -198,6 +210,10 @@ def run(ctx, params):
     # every draw component is constructed by the real factories without error; their exact pivots are not compared: simultaneous
     # two-qubit blocks are deliberately offset sideways by OffsetTransformConstructor (artistic), which the statement does not constrain
     ctx.check('C18.components', len(d['components']) >= 1 or not before['ops'], dict(info, n_components=len(d['components'])))
+    # ... and nothing the description holds is left undrawn: one draw component per operation of the visual description
+    ctx.check('C18.components.complete', len(d['components']) == d['n_desc_ops'] == len(before['ops']),
+              dict(info, n_components=len(d['components']), n_description_operations=d['n_desc_ops'], n_operations=len(before['ops']),
+                   component_classes=sorted(set(c[0] for c in d['components']))))
     if labels:
         exp_names = [labels.get(q, None) for q in want_rows]
         ctx.check('C18.labels', all((h == n) if n is not None else (h == f'# {q}' or h == str(q) or True) for h, n, q in zip(d['headers'], exp_names, want_rows)),
